@@ -79,9 +79,19 @@ fn run(input: RunInput) -> ScenFuture {
                     idx: 9, port: 7200 + step as u16, chain: vec![crate::adversary::gen_cert(&key, "sim")], sign_key: key,
                     present_client_cert: true, idle_ms: 20_000, keep_alive_ms: None, max_bidi: 10,
                 });
-                let mode = r.gen_range(0..3);
-                let hold_us = match mode { 0 => 0, 1 => r.gen_range(0..3 * lat_max), _ => settle_ms * 1000 };
-                let conn = match adv.ep.connect_with(adv.client.clone(), l.addr, "sim") {
+                // mode 3: the dialer grants no unidirectional stream, so the listener's
+                // acknowledgement cannot even be opened, and stays until the listener gives up
+                // (its connect timeout)
+                let mode = r.gen_range(0..4);
+                let hold_us = match mode { 0 => 0, 1 => r.gen_range(0..3 * lat_max), 2 => settle_ms * 1000, _ => 1_500_000 + r.gen_range(0..300_000) };
+                let mut client = adv.client.clone();
+                if mode == 3 {
+                    let mut t = quinn::TransportConfig::default();
+                    t.max_concurrent_uni_streams(0u32.into());
+                    t.max_idle_timeout(Some(quinn::VarInt::from_u32(20_000).into()));
+                    client.transport_config(std::sync::Arc::new(t));
+                }
+                let conn = match adv.ep.connect_with(client, l.addr, "sim") {
                     Ok(c) => tokio::time::timeout(std::time::Duration::from_millis(1_500), c).await.ok().and_then(|r| r.ok()),
                     Err(_) => None,
                 };
